@@ -98,6 +98,8 @@ def gen_case(rng, boundary=None):
     mode = rng.choice(["kill", "kill", "kill", "kill", "segv", "abrt", "exit", "end"])
     if boundary:
         mode = boundary
+    if mode == "kill" and len(ops) < 2:
+        mode = "segv"          # the first hook call sets the thread up: it is never the kill op
     sync = [rng.random() < 0.3 for _ in ops]
     e = rng.randrange(0, 9) if mode == "kill" else None
     return {"cap": cap, "ops": ops, "sync": sync, "mode": mode, "e": e, "args": with_args}
